@@ -306,6 +306,11 @@ def pitfall_rules(ctx, pid):
     prog = ctx.prog
     roots = _roots(prog, pid)
     reach = CG.reachable(prog, roots)
+    from ..scope import REACH_ONLY
+    only = REACH_ONLY.get(pid)
+    if only is not None:
+        only = only(prog)
+        reach = {q: fi for q, fi in reach.items() if only(fi)}
     n = 0
     shared_by_module = {m.name: _shared_mutable_tables(m.tree)
                         for m in prog.modules.values()}
